@@ -20,6 +20,8 @@ class Scheduler:
     def __init__(self, chooser, trace=None, max_steps=20000):
         """chooser(runnable_tids, step, current_tid) -> tid; trace(filename) -> bool selects files traced by line"""
         self.chooser = chooser
+        if hasattr(chooser, "sched"):
+            chooser.sched = self
         self.trace = trace
         self.max_steps = max_steps
         self.events = {}
@@ -230,11 +232,15 @@ class OnePreemptionChooser:
         self.k = k
         self.first = first
         self.n = 0
+        self.sched = None       # set by the Scheduler
+        self.exhausted = False  # thread `first` had finished before its k-th decision: larger k add no new schedule
 
     def __call__(self, runnable, step, current):
         self.n += 1
         if self.n <= self.k and self.first in runnable:
             return self.first
+        if self.n <= self.k and self.sched is not None and self.sched.state.get(self.first) == "done":
+            self.exhausted = True
         others = [t for t in runnable if t != self.first]
         return others[0] if others else runnable[0]
 
